@@ -63,6 +63,12 @@ func genBuildBase(p *PRNG, n int) []*Case {
 
 // documents aimed at notations / constructs the random model rarely combines
 var specialDocs = []string{
+	"JSIGHT 0.3\nTAG @reserved // never used\nTAG @used\nGET /cats\n  Tags @used\n  200 any\n",
+	"JSIGHT 0.3\nGET /r\n  200 regex\n    /[/\n",
+	"JSIGHT 0.3\nGET /cats/{id}\n  Path\n    {\n      \"id\": 1,\n      \"Name\": \"Tom\",\n      \"name\": \"tom\",\n      \"AGE\": 1,\n      \"age\": 2,\n      \"Zip\": 1,\n      \"zip\": 2,\n      \"ZIP\": 3\n    }\n  200 any\n",
+	"JSIGHT 0.3\n\nGET /cats\n  200 // found\n    { // a cat\n      \"id\": 1\n    }\n  200\n    \"none\"\n",
+	"JSIGHT 0.3\nGET /n\n  200 // first\n    1 // one\n  200 // second\n    2\n  404 @e\nTYPE @e // err type\n{ // root note\n  \"m\": \"x\" // msg\n}\n",
+	"JSIGHT 0.3\nGET /x/{id}\n  Path\n  {\n    \"id\": 1,\n    \"zz\": 2,\n    \"aa\": 3\n  }\n  200 any\n",
 	"JSIGHT 0.3\nTYPE @e empty\nGET /a\n  200 @e\n",
 	"JSIGHT 0.3\nTYPE @a any\nGET /a\n  200 @a\n",
 	"JSIGHT 0.3\nTYPE @r regex\n  /ab+c/\nGET /a\n  200 @r\n",
@@ -254,7 +260,7 @@ func genAccessCases(p *PRNG, n int, tier string) []*Case {
 		var data []byte
 		switch d % 3 {
 		case 0:
-			data = []byte(specialDocs[(d/3)%12])
+			data = []byte(specialDocs[(d/3)%18])
 		default:
 			m := GenModel(p.Fork(), 1+p.Intn(3))
 			// make sure regex types and references to them occur: they are what makes generation stateful
